@@ -153,12 +153,54 @@ def _leaves(stmts):
     return bool(stmts) and isinstance(stmts[-1], (ast.Return, ast.Raise, ast.Continue, ast.Break))
 
 
+def _normalise_walrus_in_comprehensions(tree):
+    """``{k: v for x in it if (v := E) is not None}`` -> ``{k: E for x in it if E is not None}`` (E is evaluated for its value only)."""
+    import copy as _copy
+
+    class _Sub(ast.NodeTransformer):
+        def __init__(self, name, expr):
+            self.name, self.expr = name, expr
+
+        def visit_Name(self, node):
+            if node.id == self.name and isinstance(node.ctx, ast.Load):
+                new = _copy.deepcopy(self.expr)
+                return ast.copy_location(new, node)
+            return node
+
+    for comp in ast.walk(tree):
+        if not isinstance(comp, (ast.ListComp, ast.SetComp, ast.DictComp, ast.GeneratorExp)):
+            continue
+        for gen in comp.generators:
+            for ci, cond in enumerate(list(gen.ifs)):
+                for w in [w for w in ast.walk(cond) if isinstance(w, ast.NamedExpr) and isinstance(w.target, ast.Name)]:
+                    name, expr = w.target.id, w.value
+                    if any(isinstance(x, (ast.NamedExpr, ast.Await, ast.Yield)) for x in ast.walk(expr)):
+                        continue
+                    # the walrus itself becomes its value
+                    class _Unwrap(ast.NodeTransformer):
+                        def visit_NamedExpr(self, node):
+                            if node is w:
+                                return node.value
+                            return self.generic_visit(node)
+                    gen.ifs[ci] = _Unwrap().visit(gen.ifs[ci])
+                    sub = _Sub(name, expr)
+                    for later in range(ci + 1, len(gen.ifs)):
+                        gen.ifs[later] = sub.visit(gen.ifs[later])
+                    if isinstance(comp, ast.DictComp):
+                        comp.key = sub.visit(comp.key)
+                        comp.value = sub.visit(comp.value)
+                    else:
+                        comp.elt = sub.visit(comp.elt)
+    ast.fix_missing_locations(tree)
+
+
 def _normalise_blocks(tree):
     """Spelling normalisations applied to every module before analysis (positions of the original nodes are kept):
       * ``a, b = X, Y`` with plain-name targets and Y not reading a  ->  ``a = X; b = Y`` (also ``self.a, self.b = x, y`` of plain names);
       * ``if c: ...leave  else: REST``  ->  ``if c: ...leave`` followed by REST   (leave = return / raise / continue / break);
       * in a loop body ``if c: continue`` followed by REST  ->  ``if not c: REST``.
     Rules then meet one statement shape for each of these equivalent spellings."""
+    _normalise_walrus_in_comprehensions(tree)
     changed = True
     rounds = 0
     while changed and rounds < 20:
